@@ -67,6 +67,9 @@ type ExecutionContext struct {
 	template   *Template
 	macroDepth int
 
+	// includeDepth is the number of include tags this execution is nested in
+	includeDepth int
+
 	// tagState holds the per-execution state of stateful tags (cycle,
 	// ifchanged), keyed by the tag's node. It is shared by all child contexts
 	// of one execution. Compiled templates must not be modified by an
@@ -106,6 +109,8 @@ func NewChildExecutionContext(parent *ExecutionContext) *ExecutionContext {
 		Public:     parent.Public,
 		Private:    make(Context),
 		Autoescape: parent.Autoescape,
+
+		includeDepth: parent.includeDepth,
 	}
 	newctx.Shared = parent.Shared
 	if parent.tagState == nil {
